@@ -247,6 +247,24 @@ def run_case(case):
             if e2 > k_ * tolQ:
                 v('c08-composition-noise', 'accumulated sub-step noise for partition %s differs from the '
                   'one-step Qd by %.3e (tol %.1e)' % (part, e2, k_ * tolQ))
+    # the SAME array objects again with their contents doubled in place: (2F, 2Q, dt) is the problem (F, Q, 2 dt), so
+    # the result must be what fresh copies of the original arrays give for 2 dt (a result remembered for the caller's
+    # array OBJECTS would come back stale here)
+    if dt > 0 and 2 * np.abs(F).sum(axis=1).max() * dt <= CAP and not case.get('int_F'):
+        F0, Q0 = F.copy(), Q.copy()
+        kalman.compute_process_matrices(F, Q, dt)
+        F *= 2.0
+        Q *= 2.0
+        Phi_s, Qd_s = kalman.compute_process_matrices(F, Q, dt)
+        Phi_f, Qd_f = kalman.compute_process_matrices(F0, Q0, 2 * dt)
+        sc_ = 1.0 + np.abs(Phi_f).max()
+        if np.abs(Phi_s - Phi_f).max() > 64 * EPS * n * sc_ + 4 * tolPhi or np.abs(Qd_s - Qd_f).max() > 64 * EPS * n * (np.abs(Qd_f).max() + 1e-300) + 4 * tolQ:
+            v('c08-stale-for-same-objects', 'after F and Q were doubled in place, the call with the same array objects differs from '
+              'the call with fresh arrays for the equivalent problem (F, Q, 2 dt): Phi by %.3e, Qd by %.3e'
+              % (np.abs(Phi_s - Phi_f).max(), np.abs(Qd_s - Qd_f).max()))
+        F[...] = F0
+        Q[...] = Q0
+        stats['same_object_calls'] = 1
     stats['partitions'] = n_part
     stats['capped'] = int(capped)
     stats['max_kappa'] = kappa
